@@ -454,7 +454,7 @@ func (g *G) UserName() string {
 	if g.Chance(15, "awkwardName") {
 		// printable names that a line-oriented reader or a "name <mail> time" splitter may cut in the wrong place
 		return g.Pick([]string{"dev -> ops", "a > b", "Team => Ops", "Ada Tester #2", "x ;y", "#lead", "; semi", "a = b", "[x]", "the [boss]", "name]", "[name",
-			"x> y", "\"Ann Lee\"", "\"G\"", "'q'", "mail@like.this", "1700000000 +0900", "tree", "commit: x", "a: b", "reset: moving to HEAD@{1}", "%s", "100%"}, "awkward")
+			"x> y", `CORP\tom`, `ACME\nina`, `C:\tools\new`, `a\\b`, "\"Ann Lee\"", "\"G\"", "'q'", "mail@like.this", "1700000000 +0900", "tree", "commit: x", "a: b", "reset: moving to HEAD@{1}", "%s", "100%"}, "awkward")
 	}
 	return rapid.StringMatching(`[A-Za-zé日%$&(#;][A-Za-z0-9é日.'%$&*",;!?@\[\]{}|~^+_/\\:=#)>-]{0,8}( [A-Za-z(%#;>][A-Za-z0-9)>:=#%&*!]{0,6}){0,2}`).Draw(g.T, "uname")
 }
